@@ -244,7 +244,7 @@ impl Ctx {
 
 thread_local! {
     static LAST_PANIC: RefCell<Option<(String, String)>> = const { RefCell::new(None) };
-    static SLOT: Cell<usize> = const { Cell::new(usize::MAX) };
+    pub static SLOT: Cell<usize> = const { Cell::new(usize::MAX) };
 }
 
 pub fn install_panic_hook() {
